@@ -221,6 +221,30 @@ def impl_lines(case):
 VALID = re.compile(br'^[^=]+=(?:\d+-\d*|-\d+)(?:,(?:\d+-\d*|-\d+))*$')
 
 
+def shared_body_oracle(n, v, f, l):
+	"""the application's representation as ONE Body object handed to two exchanges (each with its own Request / Response): the second
+	answer is as right as the first, and the application's object still holds the whole representation"""
+	from httoop import Request, Response
+	from httoop.messages.body import Body
+	from httoop.semantic.response import ComposedResponse
+	data = body(n).getvalue() if hasattr(body(n), 'getvalue') else bytes(body(n))
+	rep = Body(data)
+	for turn in (1, 2):
+		req = Request('GET', '/x', protocol=(1, 1))
+		req.headers['Range'] = v
+		resp = Response(200, protocol=(1, 1))
+		resp.body = rep
+		resp.headers['ETag'] = '"v1"'
+		ComposedResponse(resp, req).prepare()
+		got = (int(resp.status), bytes(resp.body), resp.headers.get('Content-Length'), resp.headers.get('Content-Range'))
+		exp = (206, data[f:l + 1], str(l - f + 1), 'bytes %d-%d/%d' % (f, l, n))
+		if got != exp:
+			return {'what': 'one Body object handed to two exchanges: answer %d is (%r, %d octets, %r, %r), expected (%r, %d octets, %r, %r)' % (turn, got[0], len(got[1]), got[2], got[3], exp[0], len(exp[1]), exp[2], exp[3]), 'range': v.decode(), 'n': n, 'finding': None}
+		if bytes(rep) != data:
+			return {'what': 'one Body object handed to two exchanges: after answer %d the application\'s object holds %d octets, the representation has %d' % (turn, len(bytes(rep)), n), 'range': v.decode(), 'n': n, 'finding': None}
+	return None
+
+
 def oracle(case):
 	if case[0] != 'r':
 		return None
@@ -242,6 +266,13 @@ def oracle(case):
 	if m:
 		f, l = int(m.group(1)), int(m.group(2))
 		if f < l < n:
+			if (n + f + l) % 7 == 0:
+				try:
+					r2 = shared_body_oracle(n, v, f, l)
+				except Exception as e:
+					r2 = {'what': 'one Body object handed to two exchanges raised %s: %s' % (exc_name(e), e), 'range': v.decode(), 'n': n, 'finding': None}
+				if r2 is not None:
+					return r2
 			got = (st, bytes(resp.body) if st == 206 else None, resp.headers.get('Content-Length'), resp.headers.get('Content-Range'))
 			exp = (206, data[f:l + 1], str(l - f + 1), 'bytes %d-%d/%d' % (f, l, n))
 			if got == exp and 'Transfer-Encoding' not in resp.headers:
